@@ -355,6 +355,18 @@ impl Monitor {
         let queue = unsafe { &mut *instance.notify_queue.get() };
         queue.remove(node)
     }
+
+    /// Verification hook (H6, read only): a copy of the notify-node set as
+    /// `(timestamp, thread)` pairs.
+    #[cfg(all(feature = "verif", unix))]
+    pub(crate) fn verif_nodes() -> Vec<(u64, u64)> {
+        let instance = Self::get_instance();
+        let queue = unsafe { &*instance.notify_queue.get() };
+        queue
+            .iter()
+            .map(|node| (node.timestamp, u64::from(node.pthread)))
+            .collect()
+    }
 }
 
 impl_current_for!(MONITOR, Monitor);
